@@ -300,6 +300,26 @@ func inSplit(fr *frame, args []value) (value, bool) {
 	if !ok || sep == "" {
 		panic(engineErr("strings.Split with symbolic or empty separator"))
 	}
+	if tblOf(args[0]) != nil {
+		// finite-domain: fork on the number of parts, then every part is a table
+		cnt, _, ok := m.lift(args[:1], func(c []value) (value, bool) { return len(strings.Split(c[0].(string), sep)), true })
+		if ok {
+			n := int(m.concInt(cnt, "number of parts"))
+			out := make([]value, n)
+			for i := 0; i < n; i++ {
+				i := i
+				p, _, _ := m.lift(args[:1], func(c []value) (value, bool) {
+					parts := strings.Split(c[0].(string), sep)
+					if len(parts) != n {
+						return "", true
+					}
+					return parts[i], true
+				})
+				out[i] = p
+			}
+			return out, true
+		}
+	}
 	var out []value
 	rest := args[0]
 	for {
